@@ -183,12 +183,15 @@ fn check_relations(c: &RelCase, info: &mut Info) -> Result<(), String> {
     Ok(())
 }
 
+crate::long_sub!(run_long_history, [11]);
+
 pub fn def() -> PropDef {
     PropDef {
         id: "C12",
         rule: "elements of Fq12: zero, one, powers of w, dense / masked coefficient vectors (elements of Fq, Fq2, Fq6, Fq4-type, pure w-odd part), Miller-loop outputs on pool points, products of these, and elements with multiplicative structure computed by the model (cyclotomic-subgroup / unitary elements, GT elements, their inverses, conjugates, Frobenius images, each optionally times an Fq6 element). Oracle: generic square-and-multiply power 3(q^12-1)/r in the flat model ring (exact equality of all 12 coefficients), failure exactly for 0; relations fe(fg) = fe(f)fe(g), fe(f)^r = 1 and proper subfield => 1 evaluated in the model. Non-trivial = f non-zero and outside Fq6 and Fq4; distinct = distinct cases",
         needs_pairing: true,
         subs: vec![
+            Box::new(crate::engine::EnumSub { name: "long-history", rule: super::longhist::RULE, run: run_long_history, replay: super::longhist::replay, exhaustive: false }),
             Box::new(Sub { name: "model-power", rule: "final_exponentiation(f) == f^(3(q^12-1)/r) by the model; None iff f = 0", quick: 400, thorough: 5000, strategy: || boxed(fein_strategy().prop_map(|f| PowCase { f })), check: check_power }),
             Box::new(Sub { name: "relations", rule: "multiplicative; image has order dividing r; proper subfields map to 1", quick: 3_000, thorough: 40_000, strategy: || boxed((fein_strategy(), fein_strategy()).prop_map(|(f, g)| RelCase { f, g })), check: check_relations }),
         ],
